@@ -971,8 +971,8 @@ MUTANTS = [
       "                print_exception(e, f\"Evaluation failed: {self._right}\")\n", "R02-c"),
     M("expression-total-inside-try", _EXP, "                print_exception(e, f\"Evaluation failed: {self.expression}\")\n\n            total += 1\n",
       "                print_exception(e, f\"Evaluation failed: {self.expression}\")\n                continue\n\n            total += 1\n", "R02-c"),
-    M("refill-yields-candidate", _POP, "                    yield from found_solution\n                    yield from new_found_solution\n",
-      "                    yield from found_solution\n                    yield from new_found_solution\n                    yield candidate\n", "R02-d"),
+    M("refill-yields-candidate", _POP, "                yield from found_solution\n                yield from new_found_solution\n",
+      "                yield from found_solution\n                yield from new_found_solution\n                yield candidate\n", "R02-d"),
     M("crossover-yields-child", _ALG, "                    yield from self.evaluator.evaluate_individual(child)\n                else:\n",
       "                    yield from self.evaluator.evaluate_individual(child)\n                    yield child\n                else:\n", "R02-d"),
     M("padding-without-best-effort", _API, "            if warnings_are_errors:\n                raise FandangoFailedError(\n                    \"Failed to find the required number of perfect solutions\"\n                )\n            elif best_effort:\n",
